@@ -51,6 +51,11 @@ CHECKS = {
          "Random search over programs x listing parameters (annotated base 2..128 x group 1..9, tcgame, addrspan, symbols, mesen-mlb); every row's position, address, digits and source text/location and every symbol value are decided against the reference. Exploration of a sampled space.",
          "Expected rows come from the reference assembler (kept equal to the assembler's spans by C01/C06); Mesen offsets asserted only for 8-bit banks at file offset >= 0x10.",
          "6/C12"),
+ "C13": ("exploration",
+         "property-based fuzzing with a validity oracle on every diagnostic (byte range in a known file on character boundaries; printed line:column recomputed independently) + single-fault injection with a location oracle",
+         "Part A checks every message of every failing run of the mutated-corpus stream (non-ASCII, CR LF, truncated UTF-8) for location validity and for agreement between the printed line:column and the byte range; part B injects one fault of each kind at sampled positions of generated valid programs spread over files and demands that the first error lies on the faulty line of the right file. Exploration.",
+         "Uses hook H1 (report message list). Malformed-directive faults are syntax errors not covered by the reference model; the missing-operand family is a listed known finding.",
+         "6/C13"),
  "C08": ("exploration",
          "metamorphic/differential property testing: the same job under the four optimisation-switch combinations x five iteration budgets must agree on success, bits and symbols",
          "Differential run of the real code against itself over generated (size-static and cascading) programs, the whole test corpus and token-mutated corpus programs. No model is trusted; exploration of a sampled program space.",
